@@ -175,3 +175,10 @@ package keymap
 //@   ensures [runs-bound-sequence] !result2 && len(result0.Action) > 0 ==> anykey(s, localtbl(eng), conv(s) == u[:len(u) - len(eng.keys.buf)] && result0 == mget(localtbl(eng), s))
 //@   ensures [unmatched-key-left-for-main] len(u) > 0 && !bprefix(localtbl(eng), u[:1]) && !bexact(localtbl(eng), u[:1]) && len(eng.local) > 0 ==> eng.keys.buf == u && len(result0.Action) == 0
 //@   ensures [no-local-keymap] len(eng.local) == 0 ==> eng.keys.buf == u && len(result0.Action) == 0 && !result2
+
+// C01 (NewShell establishes the invariant): loading the configuration only touches the keymap engine's own
+// mode fields and its configuration object.
+//@ func (*Engine).ReloadConfig
+//@   trusted parses the user's inputrc files into the engine's own configuration (inputrc.UserDefault with application options, built-in binds): writes only the engine's mode fields and that configuration object and its tables
+//@   requires m != nil && m.config != nil
+//@   assigns m.main, m.local, m.config.all, anymapof("map[string]interface{}"), anymapof("map[string]map[string]inputrc.Bind"), anymapof("map[string]inputrc.Bind")
